@@ -339,39 +339,39 @@ impl<F: Write + Seek> Directory<F> {
         }
         debug_assert_eq!(self.dir_entry(stream_id).child, consts::NO_STREAM);
 
-        // Restructure the tree.
-        let mut replacement_id = consts::NO_STREAM;
-        loop {
-            let left_sibling = self.dir_entry(stream_id).left_sibling;
-            let right_sibling = self.dir_entry(stream_id).right_sibling;
-            if left_sibling == consts::NO_STREAM
-                && right_sibling == consts::NO_STREAM
-            {
-                break;
-            } else if left_sibling == consts::NO_STREAM {
-                replacement_id = right_sibling;
-                break;
-            } else if right_sibling == consts::NO_STREAM {
-                replacement_id = left_sibling;
-                break;
-            }
+        // Restructure the tree.  Every entry other than the removed one
+        // keeps its stream ID (open `Stream` handles refer to their entry by
+        // ID), so nodes are relinked rather than copied between slots.
+        let left_sibling = self.dir_entry(stream_id).left_sibling;
+        let right_sibling = self.dir_entry(stream_id).right_sibling;
+        let replacement_id = if left_sibling == consts::NO_STREAM {
+            right_sibling
+        } else if right_sibling == consts::NO_STREAM {
+            left_sibling
+        } else {
+            // Two children: the in-order predecessor (the rightmost node of
+            // the left subtree) takes the place of the removed entry.
+            let mut pred_parent_id = stream_id;
             let mut predecessor_id = left_sibling;
             loop {
-                stream_ids.push(predecessor_id);
                 let next_id = self.dir_entry(predecessor_id).right_sibling;
                 if next_id == consts::NO_STREAM {
                     break;
                 }
+                pred_parent_id = predecessor_id;
                 predecessor_id = next_id;
             }
-            let mut pred_entry = self.dir_entry(predecessor_id).clone();
-            debug_assert_eq!(pred_entry.right_sibling, consts::NO_STREAM);
-            pred_entry.left_sibling = left_sibling;
-            pred_entry.right_sibling = right_sibling;
-            pred_entry.write_to(&mut self.seek_to_dir_entry(stream_id)?)?;
-            *self.dir_entry_mut(stream_id) = pred_entry;
-            stream_id = predecessor_id;
-        }
+            if pred_parent_id != stream_id {
+                // Detach the predecessor; its parent adopts its left subtree.
+                let pred_left = self.dir_entry(predecessor_id).left_sibling;
+                self.dir_entry_mut(pred_parent_id).right_sibling = pred_left;
+                self.write_dir_entry(pred_parent_id)?;
+                self.dir_entry_mut(predecessor_id).left_sibling = left_sibling;
+            }
+            self.dir_entry_mut(predecessor_id).right_sibling = right_sibling;
+            self.write_dir_entry(predecessor_id)?;
+            predecessor_id
+        };
         // TODO: recolor nodes
 
         // Remove the entry.
